@@ -2094,6 +2094,8 @@ class _TrampolineArgs:
 
         try:
             final = self._args[-1]
+            if final is None:
+                return self._args[:-1]
             if isinstance(final, ISeq):
                 inits = self._args[:-1]
                 return tuple(itertools.chain(inits, final))
